@@ -9,7 +9,7 @@ use serde_json::Value;
 
 pub const META: PropMeta = PropMeta {
     level: "exploration",
-    rule: "files are synthesised by the independent reference encoder from a logical movie; small scope: every composition of N samples into chunks x every run-length grouping of the chunk map (N<=Nmax) x D draws of the other dimensions (stco/co64, fixed/variable/zero sizes, stts/ctts run splits, sync subset/none, 1-3 tracks, interleaved chunks, mdat before/after moov), plus random larger movies. Non-trivial = some track has N>=3 samples and (>=2 chunks with different samples-per-chunk, or a non-minimal stsc grouping). Distinct = fingerprint of (chunk map, stsc entries, sizes, durations, offsets, flags) of all tracks.",
+    rule: "files are synthesised by the independent reference encoder from a logical movie; small scope: every composition of N samples into chunks x every run-length grouping of the chunk map (N<=Nmax) x D draws of the other dimensions (stco/co64, fixed/variable/zero sizes, stts/ctts run splits, sync subset/none, 1-3 tracks, interleaved chunks, mdat before/after moov), plus random larger movies (one sample in ~50 movies sized 65535..200003 bytes; in 8% the final mdat has size field 0 = to end of file). Every file is read twice on one reader, ascending then descending. Non-trivial = some track has N>=3 samples and (>=2 chunks with different samples-per-chunk, or a non-minimal stsc grouping). Distinct = fingerprint of (chunk map, stsc entries, sizes, durations, offsets, flags) of all tracks.",
     assumptions: &["the reference encoder (refmp4) renders ISO/IEC 14496-12 sample tables correctly; it shares no code with the library", "sample payloads are a deterministic non-zero pattern of (track, index, byte)"],
 };
 
@@ -96,6 +96,8 @@ pub fn classify(ctx: &mut Ctx, m: &Movie) -> bool {
     }
     if m.mdat_first {
         ctx.count("movie:mdat-first");
+    } else if m.last_to_eof {
+        ctx.count("movie:last-mdat-with-size-0(to-end-of-file)");
     }
     nontrivial
 }
